@@ -105,6 +105,7 @@ func StartNode(root string, o NodeOpts) (n *Node, err error) {
 	cfg.StartTime = simrt.Now()
 	utils.InstanceConfig = *cfg
 	executor.ThisInstance = nil
+	executor.VerifResetGlobals() // a fresh process has no WAL writer yet
 	c := di.NewContainer(cfg)
 	if o.Triggers != nil {
 		c.InjectTriggerMatchers(o.Triggers)
